@@ -363,7 +363,7 @@ def parse_nat_list(s):
 
 
 # ------------------------------------------------------------------ worker pool (implementation side)
-def _worker(modname, fname, inq, outq):
+def _worker(modname, fname, conn):
     sys.path.insert(0, os.path.join(VERIF, "tools"))
     sys.path.insert(0, REPO)
     import importlib
@@ -372,87 +372,114 @@ def _worker(modname, fname, inq, outq):
     mod = importlib.import_module(modname)
     fn = getattr(mod, fname)
     while True:
-        item = inq.get()
+        try:
+            item = conn.recv()
+        except EOFError:
+            return
         if item is None:
             return
         i, case = item
-        outq.put(("start", i, os.getpid()))
         try:
             r = fn(case)
         except BaseException as ex:  # noqa: BLE001
             r = {"exc": type(ex).__name__, "msg": str(ex)[:200]}
-        outq.put(("done", i, r))
+        try:
+            conn.send((i, r))
+        except Exception as ex:  # noqa: BLE001  (unpicklable result)
+            conn.send((i, {"exc": "HarnessError", "msg": f"result not transferable: {ex}"[:200]}))
 
 
 def run_impl(modname, fname, cases, workers=12, per_case_timeout=30.0):
-    """Run mod.fname(case) for every case in worker processes (PYTHONPATH=/repo).  A case that
-    exceeds per_case_timeout is recorded as {'hang': True} and its worker is killed (nogil
-    kernels cannot be interrupted from inside).  Returns list of results in order."""
+    """Run mod.fname(case) for every case in worker processes (PYTHONPATH=REPO).  The parent hands
+    one case at a time to each idle worker over its own pipe, so it always knows which case a worker
+    holds: a case that exceeds per_case_timeout is recorded as {'hang': True} and its worker is killed
+    (nogil kernels cannot be interrupted from inside); a worker that dies is recorded as
+    {'crash': exitcode} for the case it held.  The watchdog fires after 4 x per_case_timeout (import and
+    JIT compilation of a new kernel can fall on any case; campaigns were tuned with that factor).
+    Returns the list of results in order."""
+    from multiprocessing.connection import wait as mp_wait
     ctx = mp.get_context("spawn")
     os.environ["PYTHONPATH"] = REPO
     os.environ["PYTHONHASHSEED"] = "0"
     os.environ.setdefault("NUMBA_NUM_THREADS", "1")
     n = len(cases)
     results = [None] * n
-    inq, outq = ctx.Queue(), ctx.Queue()
-    for i, c in enumerate(cases):
-        inq.put((i, c))
-    procs = {}
-    busy = {}   # pid -> (case index, start time)
+    if n == 0:
+        return results
+
+    class W:
+        pass
+
+    ws = []
 
     def spawn():
-        p = ctx.Process(target=_worker, args=(modname, fname, inq, outq), daemon=True)
-        p.start()
-        procs[p.pid] = p
-    for _ in range(min(workers, max(1, n))):
-        spawn()
-    done = 0
-    first_start = {}
-    while done < n:
+        w = W()
+        parent, child = ctx.Pipe()
+        w.proc = ctx.Process(target=_worker, args=(modname, fname, child), daemon=True)
+        w.proc.start()
+        child.close()
+        w.conn, w.case, w.t0, w.warm = parent, None, 0.0, False
+        ws.append(w)
+        return w
+
+    def retire(w, kill=False):
         try:
-            msg = outq.get(timeout=0.5)
+            if kill:
+                w.proc.kill()
+            w.conn.close()
         except Exception:  # noqa: BLE001
-            msg = None
+            pass
+        if w in ws:
+            ws.remove(w)
+
+    for _ in range(min(workers, n)):
+        spawn()
+    next_i, done = 0, 0
+    while done < n:
         now = time.time()
-        if msg:
-            if msg[0] == "start":
-                busy[msg[2]] = (msg[1], now)
-            else:
-                _, i, r = msg
-                results[i] = r
-                done += 1
-                for pid, (ci, _t) in list(busy.items()):
-                    if ci == i:
-                        del busy[pid]
-        # watchdog (the first case in a worker pays import + JIT: allow 4x)
-        for pid, (ci, t0) in list(busy.items()):
-            lim = per_case_timeout * (4 if pid not in first_start else 1)
-            if now - t0 > lim:
-                p = procs.pop(pid)
-                p.kill()
-                del busy[pid]
-                if results[ci] is None:
-                    results[ci] = {"hang": True}
+        for w in list(ws):
+            if w.case is None and next_i < n:
+                try:
+                    w.conn.send((next_i, cases[next_i]))
+                    w.case, w.t0 = next_i, now
+                    next_i += 1
+                except (BrokenPipeError, OSError):
+                    retire(w, kill=True)
+                    spawn()
+        busy = [w for w in ws if w.case is not None]
+        ready = mp_wait([w.conn for w in busy], timeout=0.5) if busy else []
+        now = time.time()
+        for w in busy:
+            if w.conn in ready:
+                try:
+                    i, r = w.conn.recv()
+                    results[i] = r
                     done += 1
+                    w.case, w.warm = None, True
+                except (EOFError, OSError):
+                    w.proc.join(timeout=1)
+                    results[w.case] = {"crash": w.proc.exitcode}
+                    done += 1
+                    retire(w, kill=True)
+                    spawn()
+            elif now - w.t0 > per_case_timeout * 4:
+                results[w.case] = {"hang": True}
+                done += 1
+                retire(w, kill=True)
                 spawn()
-            elif results[ci] is not None:
-                first_start[pid] = True
-        # dead workers (segfault)
-        for pid, p in list(procs.items()):
-            if not p.is_alive() and p.exitcode not in (0, None):
-                procs.pop(pid)
-                if pid in busy:
-                    ci, _ = busy.pop(pid)
-                    if results[ci] is None:
-                        results[ci] = {"crash": p.exitcode}
-                        done += 1
-                spawn()
-    for _ in procs:
-        inq.put(None)
-    for p in procs.values():
-        p.join(timeout=2)
-        if p.is_alive():
-            p.kill()
+    for w in list(ws):
+        try:
+            w.conn.send(None)
+        except Exception:  # noqa: BLE001
+            pass
+    for w in list(ws):
+        w.proc.join(timeout=2)
+        if w.proc.is_alive():
+            w.proc.kill()
+        try:
+            w.conn.close()
+        except Exception:  # noqa: BLE001
+            pass
     return results
 
 
